@@ -85,6 +85,41 @@ def statics_scan():
     return nfiles, found, bad, errs
 
 
+def cfg_const_scan():
+    """C19 'the shared configuration is never written during parsing', decided by the C type checker for every function of the tree, under contract or not:
+    the sources and headers of the current tree are copied to a scratch directory, the ONE typedef `typedef struct htp_cfg_t htp_cfg_t;` is made
+    `typedef const struct ...`, and every htp/*.c except htp_config.c (the configuration API itself) is type-checked with gcc -fsyntax-only.  A store through any
+    htp_cfg_t lvalue (cfg->x = .., connp->cfg->decoder_cfgs[i].y |= ..) is then an 'assignment of member in read-only object' error.  Not covered: stores through
+    casts / memcpy, and objects the configuration only points to (hook lists) - those are under the frame obligations of the contract units."""
+    import subprocess, tempfile, shutil
+    repo = os.environ.get('VERIF_REPO', '/repo')
+    d = tempfile.mkdtemp(prefix='vcc.', dir='/var/tmp')
+    bad, errs, nfiles = [], [], 0
+    try:
+        os.makedirs(os.path.join(d, 'htp', 'lzma'))
+        for pat, dst in (('*.h', ''), ('htp/*.[ch]', 'htp'), ('htp/lzma/*.[ch]', 'htp/lzma')):
+            for f in glob.glob(os.path.join(repo, pat)):
+                shutil.copy(f, os.path.join(d, dst))
+        core = os.path.join(d, 'htp', 'htp_core.h')
+        txt = open(core).read()
+        new = re.sub(r'typedef\s+struct\s+htp_cfg_t\s+htp_cfg_t\s*;', 'typedef const struct htp_cfg_t htp_cfg_t;', txt)
+        if new == txt:
+            return 0, [], ['htp_core.h: the typedef of htp_cfg_t was not found (must-fire rewrite)']
+        open(core, 'w').write(new)
+        for src in sorted(glob.glob(os.path.join(d, 'htp', '*.c'))):
+            if os.path.basename(src) == 'htp_config.c':
+                continue
+            nfiles += 1
+            r = subprocess.run(['gcc', '-fsyntax-only', '-w', '-I' + d, '-I' + os.path.join(d, 'htp'), src], capture_output=True, text=True)
+            for line in r.stderr.splitlines():
+                if 'error' in line:
+                    line = line.replace(d + '/', '')
+                    (bad if 'read-only' in line else errs).append(line.strip())
+    finally:
+        shutil.rmtree(d, ignore_errors=True)
+    return nfiles, bad, errs
+
+
 def load_units():
     units = []
     for path in sorted(glob.glob(os.path.join(VERIF, 'units', '*.py'))):
@@ -340,6 +375,22 @@ def main(argv):
             violations.append((dict(unit='static_storage_scan'), [dict(property='static_storage_scan')], '', None))
         for e in serrs:
             undecided.append(dict(unit='static_storage_scan', reason='cannot compile ' + e))
+        cfiles, cbad, cerrs = cfg_const_scan()
+        frame_note.update(cfg_const_scan=dict(files_type_checked=cfiles, stores_through_the_configuration=cbad, other_errors=cerrs,
+                                              method='copy of the current tree with `typedef const struct htp_cfg_t htp_cfg_t;`, gcc -fsyntax-only of every htp/*.c except htp_config.c: a store through a configuration lvalue is a type error'))
+        print('C19 configuration const scan: %d files type-checked with a read-only htp_cfg_t, %d stores through the configuration' % (cfiles, len(cbad)))
+        for i, b in enumerate(cbad):
+            rp = os.path.join(VERIF, 'replay', 'C19'); os.makedirs(rp, exist_ok=True)
+            rf = os.path.join(rp, 'cfg_const.%d.json' % i)
+            with open(rf, 'w') as f:
+                json.dump(dict(property='C19', unit='cfg_const_scan', failed_obligation='no store through an htp_cfg_t lvalue outside htp_config.c', description=b,
+                               verifier_output=b, how_to_replay='./bin/vcheck C19  (configuration const scan: gcc -fsyntax-only with a read-only htp_cfg_t)'), f, indent=1)
+            print('VIOLATION property=C19 replay=%s cfg-const: %s no-failing-input-found' % (rf, b))
+            print('VIOLATION property=C19 replay=%s no-failing-input-found' % rf)
+        if cbad:
+            violations.append((dict(unit='cfg_const_scan'), [dict(property='cfg_const_scan')], '', None))
+        for e in cerrs:
+            undecided.append(dict(unit='cfg_const_scan', reason=e))
     for r in undecided:
         print('UNDECIDED property=%s unit=%s: %s' % (prop, r['unit'], r['reason']))
     if not a.no_evidence and a.prop:
